@@ -433,6 +433,40 @@ func run(r *mon.Run) {
 		}
 	}
 
+	// items of the requested type wrapped in, or preceded by, something of another type: a tag (every head size; the
+	// numbers applications know - date/time, bignum, encoded CBOR, self-described CBOR 55799 ...), a simple value or
+	// float, a negative integer. The first item is what a Decode* call is asked about; it is not of the requested type.
+	if r.Mine(3) {
+		var prefixes [][]byte
+		for _, tag := range []uint64{0, 1, 2, 3, 4, 5, 21, 22, 23, 24, 25, 32, 33, 34, 35, 36, 255, 256, 55799, 55800, 65535, 65536, 1 << 32, ^uint64(0)} {
+			for _, size := range []int{0, 1, 2, 4, 8} {
+				switch {
+				case size == 0 && tag < 24:
+					prefixes = append(prefixes, []byte{0xc0 | byte(tag)})
+				case size == 1 && tag < 1<<8:
+					prefixes = append(prefixes, append([]byte{0xd8}, be(tag, 1)...))
+				case size == 2 && tag < 1<<16:
+					prefixes = append(prefixes, append([]byte{0xd9}, be(tag, 2)...))
+				case size == 4 && tag < 1<<32:
+					prefixes = append(prefixes, append([]byte{0xda}, be(tag, 4)...))
+				case size == 8:
+					prefixes = append(prefixes, append([]byte{0xdb}, be(tag, 8)...))
+				}
+			}
+		}
+		prefixes = append(prefixes, []byte{0xf4}, []byte{0xf5}, []byte{0xf6}, []byte{0xf7}, []byte{0xf8, 0x20}, []byte{0xf9, 0, 0}, []byte{0xfa, 0, 0, 0, 0}, []byte{0xfb, 0, 0, 0, 0, 0, 0, 0, 0}, []byte{0x20}, []byte{0x38, 0x18}, []byte{0xd9, 0xd9, 0xf7, 0xd9, 0xd9, 0xf7})
+		items := [][]byte{{0x0a}, {0x18, 0x64}, {0x43, 'a', 'b', 'c'}, {0x40}, {0x63, 'a', 'b', 'c'}, {0x60}, {0x82, 1, 2}, {0x80}, {0xa1, 1, 2}, {0xa0}}
+		for pi, p := range prefixes {
+			for ii, it := range items {
+				x := append(append([]byte{}, p...), it...)
+				for _, m := range methods {
+					for _, ch := range chunks {
+						checkOne(r, x, m, ch, fmt.Sprintf("wrapped/prefix%d/item%d", pi, ii))
+					}
+				}
+			}
+		}
+	}
 	// (value, head size) pairs incl. non-shortest heads; streams; round trip
 	nSeeded := 4000
 	if r.Thorough {
